@@ -225,7 +225,10 @@ pub fn generate_trojan(w: &mut dyn Write, seed: u64, thorough: bool) {
                 for bit in 0..56 * 8 {
                     let mut m = wire.clone();
                     m[bit / 8] ^= 1 << (bit % 8);
-                    crate::emit_case(w, &["trojsrv".to_string(), hex(&pw), format!("D{}", hex(&m)), "@n".to_string()], exec);
+                    // the case of a hex letter is not part of the credential (the key is compared as the 28 bytes it encodes):
+                    // that one flip yields the same credential, every other one a different one
+                    let same = bit % 8 == 5 && wire[bit / 8].is_ascii_alphabetic();
+                    crate::emit_case(w, &["trojsrv".to_string(), hex(&pw), format!("D{}", hex(&m)), if same { "@-".to_string() } else { "@n".to_string() }], exec);
                 }
             }
         }
